@@ -123,18 +123,19 @@ func asmEffect(in asmInstr) asmRW {
 
 // helperContract: registers a JMP-entered helper (a TEXT without a Go declaration) expects to be
 // defined on entry. Derived from the helper itself by asmContracts: its upward-exposed reads.
-var helperContract = map[string][]string{}
+// (a value, not package state: controls analyse variants of the file concurrently)
+type asmContractMap map[string][]string
 
 // asmContracts derives the register contract of every helper TEXT (no "·" in the name: not
 // callable from Go, entered by JMP): the registers it reads before writing them.
-func asmContracts(f *asmFile) {
-	helperContract = map[string][]string{}
+func asmContracts(f *asmFile) asmContractMap {
+	helperContract := asmContractMap{}
 	for _, t := range f.texts {
 		if strings.Contains(t.name, "·") {
 			continue
 		}
 		helperContract[t.name] = nil
-		bad, _, _ := asmDefUse(t)
+		bad, _, _ := asmDefUse(t, helperContract)
 		set := map[string]bool{}
 		for _, b := range bad {
 			if i := strings.Index(b, " reads "); i >= 0 {
@@ -151,6 +152,7 @@ func asmContracts(f *asmFile) {
 		sort.Strings(regs)
 		helperContract[t.name] = regs
 	}
+	return helperContract
 }
 
 type regSet map[string]bool
@@ -165,7 +167,7 @@ func (a regSet) clone() regSet {
 
 // asmDefUse runs the must-define analysis over t and returns the violations found
 // (sorted, each naming the instruction and the register) and the number of reads checked.
-func asmDefUse(t *asmText) (bad []string, checked int, unknown []string) {
+func asmDefUse(t *asmText, helperContract asmContractMap) (bad []string, checked int, unknown []string) {
 	at := map[string]int{}
 	for i, in := range t.instrs {
 		if in.label != "" {
@@ -286,7 +288,7 @@ func asmDefUse(t *asmText) (bad []string, checked int, unknown []string) {
 // case that matters — the value was meant for an instruction that now reads another register.
 // Backward may-liveness over the same CFG; live-out of RET is empty (results travel through
 // FP slots), live-out of a tail call is the helper's register contract.
-func asmDeadMoves(t *asmText) (bad []string, moves int) {
+func asmDeadMoves(t *asmText, helperContract asmContractMap) (bad []string, moves int) {
 	at := map[string]int{}
 	for i, in := range t.instrs {
 		if in.label != "" {
